@@ -1,6 +1,6 @@
 """Symbolic arrays for engine M: PrimitiveArray { valid: BitVec, data: Box<[T]> } with concrete length."""
 from z3 import BitVec, Bool
-from .vm import BV, Struct, Enum, Seq, Bits, Ref, Cell
+from .vm import BV, FP, Struct, Enum, Seq, Bits, Ref, Cell
 
 PRIM = {'Bool': None, 'Int16': ('i16', 16), 'Int32': ('i32', 32), 'Int64': ('i64', 64), 'Date': ('i32', 32)}
 WRAPPED = {'Date'}     # newtype payloads: PrimitiveArray<Date> holds Date(i32)
@@ -15,6 +15,11 @@ def sym_array(name, variant, n):
         if variant == 'Bool':
             r = Bool('%s_raw%d' % (name, i))
             data.append(r)
+        elif variant == 'Float64':
+            # the raw slot is 64 symbolic bits read as an IEEE double (every NaN pattern is the one NaN of the theory)
+            from z3 import fpBVToFP, Float64
+            r = BitVec('%s_raw%d' % (name, i), 64)
+            data.append(Struct('OrderedFloat', [FP(fpBVToFP(r, Float64()))]))
         else:
             ty, w = PRIM[variant]
             r = BitVec('%s_raw%d' % (name, i), w)
@@ -34,7 +39,7 @@ def unpack_array(vm, v):
     rows = []
     for d, b in zip(data.items, valid.bits):
         d = vm.deref_value(d)
-        if isinstance(d, Struct) and d.name in WRAPPED:
+        if isinstance(d, Struct) and (d.name in WRAPPED or d.name == 'OrderedFloat'):
             d = vm.deref_value(d.fields[0])
-        rows.append((d.v if isinstance(d, BV) else d, b))
+        rows.append((d.v if isinstance(d, (BV, FP)) else d, b))
     return v.variant, rows
